@@ -60,6 +60,9 @@ let dispatch (op : string) (x : v) : v =
   | "get_av", [tab; vv; ts] ->
       let tab = to_list to_pt tab and vv = to_q vv in
       of_list (fun t -> of_q (M.get_av_m tab vv (to_q t))) (match ts with L l -> l | _ -> raise (Bad "list"))
+  | "get_av_snap", [tol; tab; vv; ts] ->
+      let tab = to_list to_pt tab and vv = to_q vv and tol = to_q tol in
+      of_list (fun t -> of_q (M.get_av_snap_m tol tab vv (to_q t))) (match ts with L l -> l | _ -> raise (Bad "list"))
   | "filter_table", [table; names] ->
       let t = to_list (to_pair to_z to_z) table in
       of_opt (of_list (fun (k, p) -> L [of_z k; of_z p]))
